@@ -93,7 +93,16 @@ func main() {
 				limits[2*cum+2] = true
 			}
 		}
+		var maxRec uint64
+		for _, rec := range recs {
+			if sz := uint64(recSize("t", rec)); sz > maxRec {
+				maxRec = sz
+			}
+		}
 		for l := range limits {
+			if l != 0 && l < 4*maxRec {
+				continue // dragonboat rejects proposals forever when MaxInMemLogSize is not well above the record size
+			}
 			jobs = append(jobs, caseID{"threshold", seed, l})
 		}
 	}
@@ -129,8 +138,8 @@ func main() {
 	r.FloorCount("restores_judged", int64(r.Pick(30, 300)))
 	r.FloorCount("restores_with_several_proposals", int64(r.Pick(10, 100)))
 	r.FloorCount("restores_unlimited_log", int64(r.Pick(2, 12)))
-	r.FloorCount("backup_roundtrips", int64(r.Pick(1, 6)))
-	r.FloorCount("corrupted_backups_refused", int64(r.Pick(2, 12)))
+	r.FloorCount("backup_roundtrips", int64(r.Pick(1, 4)))
+	r.FloorCount("corrupted_backups_refused", int64(r.Pick(2, 8)))
 	r.FloorCount("captures_concurrent_with_writes", int64(r.Pick(5, 40)))
 	r.Finish()
 }
@@ -405,7 +414,7 @@ func serveAll(e *storage.Engine) (string, func(), error) {
 func runBackup(r *ev.Run, id caseID) {
 	g := rand.New(rand.NewSource(id.Seed))
 	w := witness{Case: id}
-	limit := []uint64{0, 4000, 64 * 1024, 6 << 20}[g.Intn(4)]
+	limit := []uint64{0, 6 << 20, 16 << 20, 6 << 20}[g.Intn(4)] // tables with 0.5-2 MiB values: the limit must exceed the largest record several times
 	c, err := cluster.Start(cluster.Opts{Nodes: 1, MaxInMemLogSize: limit})
 	if err != nil {
 		r.Inconclusive("engine start: " + err.Error())
@@ -769,7 +778,7 @@ func runPIT(r *ev.Run, id caseID) {
 		// restore the capture like a follower does (final marker with the leader index)
 		if i%3 == 0 {
 			if second == nil {
-				second, err = cluster.Start(cluster.Opts{Nodes: 1, MaxInMemLogSize: []uint64{0, 4000, 1 << 20}[g.Intn(3)]})
+				second, err = cluster.Start(cluster.Opts{Nodes: 1, MaxInMemLogSize: []uint64{0, 64 * 1024, 1 << 20}[g.Intn(3)]})
 				if err != nil {
 					r.Inconclusive("second engine: " + err.Error())
 					return
